@@ -19,13 +19,16 @@ import (
 )
 
 // Rng is splitmix64: every random choice of a run derives from VERIF_SEED.
-type Rng struct{ s uint64 }
+type Rng struct {
+	s    uint64
+	Seed uint64 // the seed it was made from (generators split exhaustive enumerations over consecutive seeds)
+}
 
 func NewRng(seed uint64) *Rng {
 	// mix the seed first: with s = seed*gamma consecutive seeds would yield shifted copies of one sequence
 	r := &Rng{s: seed ^ 0xD1B54A32D192ED03}
 	a, b := r.U64(), r.U64()
-	return &Rng{s: a ^ (b << 1) ^ (seed * 0xA24BAED4963EE407)}
+	return &Rng{s: a ^ (b << 1) ^ (seed * 0xA24BAED4963EE407), Seed: seed}
 }
 func (r *Rng) U64() uint64 {
 	r.s += 0x9E3779B97F4A7C15
